@@ -40,6 +40,44 @@ CHECKS.update({
         note="Trusted: the purepath shim (posixpath functions extracted from the live stdlib source, path.Path methods grafted), validated differentially on every run. Symlinks and the RPC path of api.step() are outside.",
     ),
 })
+_MECH = "Claimed for its mechanisms only: whole builds (subprocesses, file system, event loop) are not encoded; "
+CHECKS.update({
+    "C02": dict(
+        engine="E-XH",
+        ref="DESIGN.md section 5 / C02",
+        technique="symbolic execution (CrossHair/z3) of the real diagnostic-message functions over all role / creator / authorship combinations",
+        text=_MECH + "decided: the text (and exception class) of every two-declaration conflict message is symmetric in the order of the two declarations (_file_collision_message, _duplicate_step_message, _duplicate_static_tree_message, _claim_collision_message). The graph-level commutativity of declarations is the E-SQL part of C08.",
+        note="Creators from {two steps, StepUp itself}; paths fixed. Not covered: identity of the final graph across job counts / dispatch orders.",
+    ),
+    "C03": dict(
+        engine="E-XH + E-Z3",
+        ref="DESIGN.md section 5 / C03",
+        technique="symbolic execution (CrossHair) of Executor.execute_job/_classify_execution/try_skip_job with stubbed environment; z3 inductive step of the real record_run_started/record_run_stopped on symbolic dicts with a symbolic clock (fork executor)",
+        text="A step is recorded SUCCEEDED iff no re-hashed input changed, nothing is unavailable/unfresh and the command succeeded; a changed input fails the step and drains regardless of keep_going; stored results are reused only on equal digests; and from any bookkeeping state satisfying the invariant, no start/stop event at any instant makes the scheduler forget a producer's completion that a still-running consumer needs (so an unfresh input is always detected).",
+        note="Stubs: hash computation, command execution, reporter, database context; clock = arbitrary non-decreasing instants; 4 steps (5 thorough) in the inductive step. Dispatch-time availability (O3.1) is part of the E-SQL obligations of C10.",
+    ),
+    "C06": dict(
+        engine="E-XH",
+        ref="DESIGN.md section 5 / C06",
+        technique="symbolic execution (CrossHair/z3) of File.before_delete, revert_optional_steps, remove_deletable_files/_prune_empty_dirs, Builder.finalize and the loop of clean.clean against a stubbed file system with arbitrary answers",
+        text="Both cleaners remove a file only when it is volatile or its re-hash equals the recorded hash (safe mode), never when it cannot be hashed; directories only when the file system reports them empty; nothing without --commit; and the automatic cleanup pass runs iff the build was unrestricted, complete and cleaning is enabled. Which graph nodes become candidates (SQL) is decided by the E-SQL obligations of C07.",
+        note="Stubs with arbitrary answers: Path.remove/rmdir/is_dir/iterdir/exists, FileHash.refreshed outcome, cursor rows, reporter, console. <= 2 queued files + 1 directory chain.",
+    ),
+    "C14": dict(
+        engine="E-XH",
+        ref="DESIGN.md section 5 / C14",
+        technique="symbolic execution (CrossHair/z3) of Watcher.record_change over event sequences and of Workflow.relevant_paths_under over pools of patterns/directories",
+        text=_MECH + "decided: folding of any sequence of <= 3 (4 thorough) UPDATED/DELETED/DELETED_PARENT events over two paths and their directory yields disjoint updated/deleted sets reflecting the last relevant event per path; a removed directory reports exactly the recorded glob matches beneath it.",
+        note="Relevance is an arbitrary per-path constant; inotify delivery and watch installation are outside.",
+    ),
+    "C19": dict(
+        engine="E-XH",
+        ref="DESIGN.md section 5 / C19",
+        technique="symbolic execution (CrossHair/z3) of finalize.report_unbuilt and _report_glob_violations with stubbed sub-reports",
+        text="Exit status only: FAILED whenever a step failed, DRAINED iff draining, PENDING iff not draining and a required step remained pending, zero only if nothing questionable was found, glob errors yield FAILED exactly when the glob report runs; _report_glob_violations sets FAILED iff a match is a file a step builds and WARNING iff a match has no node.",
+        note="The end-of-build summary (analyze_pending) is outside: window functions and a forest walk over nine temp tables are outside the encoded SQL subset.",
+    ),
+})
 NOT_APPLICABLE = {
     "C15": "Atomicity/isolation are delivered by SQLite's C transaction machinery (BEGIN IMMEDIATE/commit/rollback) and asyncio task scheduling; the remaining Python has no symbolic input for a solver to range over, and a model of rollback would restate the assumption (DESIGN.md section 6).",
 }
